@@ -148,7 +148,7 @@ def run_list(rep, cfg, proj, ctl, d, op, lst, alone, sigk):
                         break
     if pre is not None:
         proj.restore(pre)
-    rep.case((cfg, op, tuple(lst)), outcome="ok" if not probs else probs[0][0])
+    rep.case((cfg, op, tuple(lst)), outcome=("ok:" + "".join("T" if alone["want"][i] else "F" for i in lst)[:8]) if not probs else probs[0][0])
     for clause, detail in probs[:3]:
         kinds = "+".join(sorted({("valid" if alone["want"][i] else "invalid") for i in lst}))
         rep.violation(f"{op}/{sigk}/{clause}/{kinds}", f"{cfg}: {op} of {[r if op == 'read' else r[0] for r in reqs]!r:.200}: {detail}",
